@@ -74,6 +74,11 @@ type Patch struct {
 	Gen     *int64      `json:"gen,omitempty"`
 	Md5     *string     `json:"md5,omitempty"`
 	Metagen *int64      `json:"metagen,omitempty"`
+	// further fields of an object resource a client may send back (e.g. the GET resource of another
+	// object used as a template): the server must ignore them -- the URL says which object is patched
+	Name   *string `json:"name,omitempty"`
+	Bucket *string `json:"bucket,omitempty"`
+	Size   *int64  `json:"size,omitempty"`
 }
 
 func (p Patch) coq() string {
@@ -693,6 +698,15 @@ func (e *Emu) exec(r Req, out *Resp) (*httptest.ResponseRecorder, string) {
 			}
 			if r.Patch.Metagen != nil {
 				o["metageneration"] = strconv.FormatInt(*r.Patch.Metagen, 10)
+			}
+			if r.Patch.Name != nil {
+				o["name"] = *r.Patch.Name
+			}
+			if r.Patch.Bucket != nil {
+				o["bucket"] = *r.Patch.Bucket
+			}
+			if r.Patch.Size != nil {
+				o["size"] = strconv.FormatInt(*r.Patch.Size, 10)
 			}
 			body, _ = json.Marshal(o)
 		}
